@@ -4,15 +4,3 @@ NOTES = ("Technique family: machine-checked proof in Lean 4. Every claimed prope
          "model (lean/N2k/Props/Cxx.lean), re-checked and axiom-audited on every run, and a correspondence run that "
          "executes the model and the real /repo/src code on the same generated operation lines. See DESIGN.md.")
 NOT_CLAIMED = {}
-CHECKS = {
- 'C20': {
-  'text': "Refinement theorems for EVERY operation sequence, size, priority count and initial memory content: the "
-          "plain ring equals a bounded list, the priority ring equals the log specification (oldest alive value of a "
-          "priority; lowest non-empty priority; refusal exactly at size-1 log entries); plus no-loss/no-duplication "
-          "corollaries over the alive values. The model is tied to RingBuffer.tpp by a correspondence run (random "
-          "long sequences, sizes 0..1000, 0..255 priorities, exhaustive small scopes) and an independent reference queue.",
-  'design_ref': 'DESIGN.md section 4, C20',
-  'note': "Trusted: Lean kernel; hand transcription of RingBuffer.tpp validated only by differential runs; uint16_t "
-          "arithmetic modelled on Nat; T=uint32_t; single thread.",
- },
-}
